@@ -60,6 +60,12 @@ func (e *Exchange) AddPayloadIntegrity(ver version.Version, recordSize int) (str
 	if e.Response.Header.Get("Digest") != "" {
 		return "", errors.New("bundle: the exchange already has the Digest: header")
 	}
+	// A Digest: header that is present with an empty value must be refused too:
+	// the MI digest added below would become its second value, and the verifier
+	// (http.Header.Get) only looks at the first one.
+	if len(e.Response.Header.Values("Digest")) > 0 {
+		return "", errors.New("bundle: the exchange already has the Digest: header")
+	}
 
 	encoding := ver.MiceEncoding()
 	var buf bytes.Buffer
